@@ -18,7 +18,7 @@ func C02() int {
 	g.LongMax = 300
 	base := CoreCorpus(g, pickN(c, 900, 12000))
 	k := pickN(c, 3, 8)
-	modes := []gen.ReassignMode{gen.Fresh, gen.AllEqual, gen.Meta, gen.Long, gen.Tiny, gen.Fresh, gen.Meta, gen.Fresh}
+	modes := []gen.ReassignMode{gen.Fresh, gen.AllEqual, gen.CrossEqual, gen.Meta, gen.Long, gen.Tiny, gen.CrossEqual, gen.Fresh}
 	var fsets []Flags
 	if thorough(c) {
 		for m := 0; m < 32; m++ {
